@@ -57,6 +57,13 @@ Definition impl_levels : level_table :=
 (* 'unOperation expression': level passed to the recursive call for the operand of '!' *)
 Definition impl_not_level : nat := 4.
 
+(* '( expression )': level passed to the inner expression *)
+Definition impl_paren_level : nat := 0.
+
+(* first tokens of the alternative 'value' (TRUE | FALSE | number | STRING | attribute_access) *)
+Definition impl_value_first : list string :=
+  [ "TRUE"; "FALSE"; "MINUS"; "INTEGER"; "FLOAT"; "STRING"; "STARTS_WITH_LOWER_C_STR" ]%string.
+
 (* the tokens of rule binOperation *)
 Definition impl_binop_tokens : list string :=
   [ "LESS_THAN"; "LESS_THAN_OR_EQUAL"; "GREATER_THAN"; "GREATER_THAN_OR_EQUAL"; "EQUAL";
@@ -317,7 +324,7 @@ Section Levels.
     | S f' =>
       match ts with
       | DTok PLParen :: r =>
-        do '(e, r1) <- parse_expr f' 0 r ;;
+        do '(e, r1) <- parse_expr f' impl_paren_level r ;;
         match r1 with
         | DTok PRParen :: r2 => FOk (EParen e, r2)
         | _ => FSyntax
